@@ -83,7 +83,8 @@ class Run:
     """State of one simulated execution."""
 
     def __init__(self, knobs: dict, *, wall_start_us: int = 1_700_000_000_000_000,
-                 tz_offset_s: int = 0, max_steps: int = 200_000, read_cost_ns: int = 1_000):
+                 tz_offset_s: int = 0, max_steps: int = 200_000, read_cost_ns: int = 1_000,
+                 clock_gran_us: int = 1):
         k = dict(EXACT_KNOBS)
         k.update(knobs or {})
         self.knobs = k
@@ -91,7 +92,8 @@ class Run:
             origin_ns=k['origin_ns'], latency_ns=k['latency_ns'], cost_ns=k['cost_ns'],
             knob_seed=k['knob_seed'], tie_permute=k['tie_permute'], max_steps=max_steps)
         seams.bind(self.loop, wall_start_us=wall_start_us, tz_offset_s=tz_offset_s,
-                   hash_salt=k['hash_salt'], read_cost_ns=read_cost_ns)
+                   hash_salt=k['hash_salt'], read_cost_ns=read_cost_ns,
+                   clock_gran_us=clock_gran_us)
         self.edzed = seams.edzed
         self.t0 = self.loop.time()
         self.trace = []
